@@ -1515,7 +1515,18 @@ func Execute(pool *Pool, spec SessionSpec, rng *mrand.Rand) *Session {
 			if rs.CtxDone {
 				cancel()
 			}
-			runErr = gensign.Run(ctx, rs.Params, handlers, signer)
+			// the run gets its own copy: what is expected of it is stated from the parameters as they were
+			// before it started (a run that rewrites its parameters must not rewrite the expectation)
+			var given *csr.ReqParam
+			if rs.Params != nil {
+				cp := *rs.Params
+				if rs.Params.Attrs != nil {
+					a := *rs.Params.Attrs
+					cp.Attrs = &a
+				}
+				given = &cp
+			}
+			runErr = gensign.Run(ctx, given, handlers, signer)
 		})
 		res.Kind, res.KindName = "None", "success"
 		if runErr != nil {
